@@ -242,6 +242,8 @@ main (int argc, char **argv)
         slab_c (a, b, c);
       else if (sscanf (vh_replay, "e:%d:%d:%d", &a, &b, &c) == 3)
         slab_e (a, b, c);
+      else if (sscanf (vh_replay, "h:%d", &a) == 1)
+        round_trip ("pw", 2, a ? "$5$rounds=100000000$ab" : "$6$rounds=100000000$ab", a ? M_SHA256 : M_SHA512, 0, vh_replay);
       else if (mode_c06 && !strncmp (vh_replay, "div:", 4))
         shape_diversity (atoi (vh_replay + 4), d1, d2);
       else
@@ -299,6 +301,19 @@ main (int argc, char **argv)
             slab_e (which, len, term);
     }
   vh_stat ("slab_e_done", 1);
+  if (vh_thorough)
+    {
+      /* the widest spelling of a decimal cost field: nine digits (about half a minute of CPU per hash; thorough tier only) */
+      static const char *const wide[] = { "$6$rounds=100000000$ab", "$5$rounds=100000000$ab" };
+      for (int i = 0; i < 2; i++)
+        if (vh_mine (idx++))
+          {
+            char rp[32];
+            snprintf (rp, sizeof rp, "h:%d", i);
+            round_trip ("pw", 2, wide[i], i ? M_SHA256 : M_SHA512, 0, rp);
+            vh_stat ("nine_digit_round_counts", 1);
+          }
+    }
   if (mode_c06)
     for (int m = 0; m < M_COUNT && !vh_expired (); m++)
       if (vh_mine ((uint64_t) m))
